@@ -235,6 +235,15 @@ CHECKS = {
              "strings without class Q, and TLC demonstrates it fails with Q (NFKC image is the delimiter); the real "
              "functions are swept over every code point in up to 8 contexts and random names.",
         note="Names whose body starts with hyx_ are excluded as the property states."),
+    "C35": dict(
+        engine="macros", level="model_checking", design="5.7, 6/C35",
+        technique="TLC enumerates (and simulates) histories of HyMacros with the documented lookup order and require "
+                  "shapes; each history is rendered as a Hy module and run, expansions and warnings compared",
+        text="HyMacros models module, local (per function scope), extra (hy.eval) and core macro tables with fresh tags per "
+             "definition; TLC explores every history of 3 (thorough 4) events and simulated 7-event histories; the rendered "
+             "modules are compiled and executed, each call site reporting which definition it expanded to, and "
+             "core-shadow warnings are compared, including the pragma that disables them.",
+        note="Local macros are scoped by functions only (classes and comprehensions share the mechanism)."),
     "C38": dict(
         engine="gensym", level="model_checking", design="5.8, 6/C38",
         technique="TLC exhaustive interleavings of the op program extracted from gensym's bytecode; "
